@@ -3,13 +3,43 @@
 import json, os
 ROOT = os.path.dirname(os.path.dirname(os.path.abspath(__file__)))
 props = [json.loads(l) for l in open(os.path.join(ROOT, "properties.jsonl"))]
+T = "Coq proof + differential correspondence harness"
 CLAIMED = {
  "C01": dict(text="Theorems (Properties/C01.v, axiom-free): for every packet limit M, every framed command is returned whole by packet(); a strict prefix never yields a packet; next() returns exactly the next command under ANY partition of the stream into reads; a whole conversation is delivered once, in order, byte-for-byte; a stream ending inside a packet is an error. Tied to src/packet.rs by translated constants and by differential execution (real PacketConn via run_on vs the extracted model) incl. exhaustive chunkings at small M.",
              note="model abstracts bytes/start/remaining to the unconsumed tail; nom/Vec semantics modelled; real 2^24-1 limit cases checked against the spec oracle only",
              technique="Coq proof (induction over read script / framing) + differential correspondence harness", ref="6 C01"),
- "C14": dict(text="Theorems (Properties/C14.v, axiom-free): every u64 round-trips through the length-encoded integer in all four size classes; the OK packet built for (rows, last_insert_id, status) is decoded by the conformant client to exactly these values. Correspondence: completions (single, chained, zero-column resultsets) on the real code vs the extracted model vs the client-side oracle.",
-             note="response-level lift (C14 through C03's run/render theorems) in progress; client decoder Spec/Client.v is the specification",
-             technique="Coq proof (case analysis over lenenc classes, N arithmetic) + differential correspondence harness", ref="6 C14"),
+ "C02": dict(text="Theorems (Properties/C02.v): which callback each command reaches with verbatim arguments (dispatch), invalid UTF-8 never reaches the shim, the USE spellings normalise to the bare name, and for whole conversations under any chunking the callback log is exactly that of the commands in order (run loop refines the pure conversation semantics). Correspondence: random command sequences with near-miss prefixes, UTF-8 classes and USE spellings on the real run_on vs the extracted model vs a client-side oracle.",
+             note="std str::from_utf8 / trim / char::is_whitespace semantics are modelled (Model/Utf8.v) and exercised by the correspondence", technique=T, ref="6 C02"),
+ "C03": dict(text="Theorems (Properties/C03.v): (1) every finite writer-API program all of whose calls succeed makes the model of QueryResultWriter/RowWriter (incl. Drop impls) over PacketConn send exactly the canonical framing of its messages, in text and binary mode, any column count, any packet limit; (2) a conformant client (Spec/Client.v) decodes those messages to exactly the result units the program denotes, more-results flag on every terminator but the last, following replies untouched; NULL for NOT NULL refused. Correspondence: random programs in random command sequences with sentinel PINGs; shape-violating programs.",
+             note="a shim that reports no success through the API (bare drop, no reply from on_prepare/on_init) is outside the property; server-level lift through Proofs/ServerRun.v", technique=T, ref="6 C03"),
+ "C04": dict(text="Theorems (Properties/C04.v): any sequence of messages sent from a clean connection is put on the transport as exactly its canonical framing for EVERY packet limit and message size (maximal packets then a shorter, possibly empty one), independent of how the caller cuts writes; every header length equals its payload; client-side reassembly returns the messages. Correspondence at small limits (hook) incl. k*M+d sizes, and at the real 2^24-1 limit against the spec oracle.",
+             note="fixed defect D1 (header counted into the limit; exact multiples unterminated) is re-checked from the corpus", technique=T, ref="6 C04"),
+ "C05": dict(text="Theorems (Properties/C05.v): the k-th packet of an exchange carries (first id + k) mod 256 for any number of packets; every reply is framed from (id of the request's last packet + 1) mod 256 in every served conversation; greeting has id 0 and the auth reply continues the handshake response. Correspondence: every request id 0..255, multi-packet requests, responses up to 600 packets.",
+             note="fixed defect D5 (id 255 overflow) re-checked from the corpus", technique=T, ref="6 C05"),
+ "C06": dict(text="Theorems (Properties/C06.v): text rows decode cell by cell to the written contents; NULL distinct from every string; decimal text of every integer reads back (all of Z); DATE/DATETIME/TIME strings read back for years 0..9999 with and without microseconds. Floats partial: the cell is the Display text; Display/parse round-trip of std is an oracle checked dynamically. Correspondence: exhaustive 8-bit, dense 16-bit, boundary values, every day of several years, byte strings across lenenc classes.",
+             note="floats: std Display/parse is a stated hypothesis", technique=T, ref="6 C06"),
+ "C07": dict(text="Theorems (Properties/C07.v): a binary row of any number of columns and any NULL pattern decodes under the advertised types to exactly the values written; the NULL bitmap (offset 2) marks precisely the NULL cells; every accepted value of every implementor decodes to its denotation; NULL for NOT NULL and values of a kind the column type cannot carry are refused. Correspondence: every NULL pattern for n<=8/10, 1..300 columns, all (kind x column type) cells.",
+             note="f32->f64 widening and chrono accessors are oracles; fixed defects D10/D11/D12 re-checked from the corpus", technique=T, ref="6 C07"),
+ "C08": dict(text="Theorems (Properties/C08.v): the client's parameter block (any count, any NULL pattern, any bound type codes) is decoded to exactly the bound parameters; per-type value round trips incl. every length form of DATE/DATETIME/TIME; conversions to Rust types return the encoded value incl. microseconds. Correspondence: counts 0..300, all NULL patterns n<=5/8, all type codes, all length forms.",
+             note="f32 conversion exact under the fptrunc(fpext x)=x oracle hypothesis; zero dates have no chrono value (raw delivery only); fixed defect D3 re-checked", technique=T, ref="6 C08"),
+ "C09": dict(text="Theorems (Properties/C09.v): column definitions (any name bytes/length, every type, every flag mask) round-trip; resultset headers and PREPARE replies decode to the declared counts and definitions in order. Correspondence: 0..1000 descriptors, names up to 70000 bytes, all types.",
+             note="counts above 65535 are outside the wire format's 16-bit fields", technique=T, ref="6 C09"),
+ "C10": dict(text="Theorems (Properties/C10.v): the server's registry equals the history-defined one after every command (refinement to Spec/History.v); ids never prepared / rejected / closed are not live and EXECUTE / SEND_LONG_DATA for them never reach the shim and end the connection with InvalidData; every CLOSE reaches on_close once and sends nothing; re-prepare starts afresh. Correspondence: exhaustive short interleavings over 2 ids, random long ones over 4 ids.",
+             note="HashMap modelled as an association list (never iterated by the code)", technique=T, ref="6 C10"),
+ "C11": dict(text="Theorems (Properties/C11.v): the greeting decodes as protocol 10 / 4.1 with the TLS flag iff configured; the user name is parsed exactly as sent (4.1 and 3.20 layouts, any capability mask, any trailing data); accept: exactly one after_authentication before anything else, OK with the next id, pipelined commands stay buffered; reject: ERR 1045/28000, shim error returned, no other callback; malformed/missing response: error, no callback. Correspondence over layouts, masks, user names, truncations, pipelining.",
+             note="clients requesting TLS are C18's", technique=T, ref="6 C11"),
+ "C12": dict(text="Theorems (Properties/C12.v): every served conversation under any arrival schedule leaves a trace of shape [reads][callbacks, packets][flush] per command, hence at every read everything written has been flushed; a completely buffered command is returned without touching the transport. Correspondence with an instrumented transport: lock-step, pipelining depth 1..8, random and exhaustive chunkings.",
+             note="real blocking, kernel and TLS-engine buffering are below the modelled transport interface (partial by nature)", technique=T, ref="6 C12"),
+ "C13": dict(text="Theorems (Properties/C13.v): ERR packets round-trip code, SQLSTATE and ANY message bytes; over the tables translated from src/errorcodes.rs on every run: kinds<->codes convert both ways, codes distinct, every kind has one 5-byte SQLSTATE, the table extends the pinned reference. Correspondence: the real ErrorKind over all 65536 codes vs the translated tables; every reporting site.",
+             note="translator tools/gen_tables.py is trusted; reference table coq/Spec/ErrRef.v pinned", technique="Coq proof by complete evaluation over the translated table (regenerated every run) + differential correspondence", ref="6 C13"),
+ "C14": dict(text="Theorems (Properties/C14.v, axiom-free): every u64 round-trips through the length-encoded integer in all four size classes; the OK packet built for (rows, last_insert_id, status) is decoded by the conformant client to exactly these values; response-level statement through C03 (un_q: zero-column resultsets denote OK(rows ended, 0)). Correspondence: completions (single, chained, zero-column resultsets) on the real code vs the extracted model vs the client-side oracle.",
+             note="client decoder Spec/Client.v is the specification", technique=T, ref="6 C14"),
+ "C15": dict(text="Theorems (Properties/C15.v): for every Rust integer type, value, integer column type and signedness: accepted => the client decodes the same number; range-containing columns accept; pointer-sized accept iff the value fits; never a panic; same through generic values. Correspondence: all 120 cells x (all 8-bit, dense 16-bit, boundary/random wider) = 8*10^4..10^6 direct calls.",
+             note="usize/isize are 64-bit; fixed defect D4 re-checked from the corpus", technique=T, ref="6 C15"),
+ "C16": dict(text="Theorems (Properties/C16.v): an execution without types is decoded with the latest types bound for the same statement (end-to-end through the registry refinement); isolation between statements; a rebind replaces, a reuse keeps. Correspondence: exhaustive rebind/reuse patterns of <=4 executions on 2 statements, random histories.",
+             note="assumes the shim pulls the parameters of a rebinding execution (D13 limitation); fixed defect D2 re-checked", technique=T, ref="6 C16"),
+ "C17": dict(text="Theorems (Properties/C17.v): chunks are concatenated in arrival order per (statement, parameter), do not disturb other parameters/statements, are consumed by exactly one execution, vanish on re-prepare; at the execution the parameter is the pending data without consuming inline bytes. Correspondence: random interleavings incl. empty and multi-packet chunks.",
+             note="a client never sets the NULL bit of a long-data parameter", technique=T, ref="6 C17"),
 }
 checks = []
 for p in props:
